@@ -4,8 +4,10 @@
    KINDS; "Progress" walks a task along the executor's workflow with fresh guards and
    a fresh proof (otherwise a random walk hardly ever reaches a cutover), the aimed
    disjuncts put a stale proof / stale guard / outside meta change right before a
-   cutover, try a second task while one is active, abort around the cutover, and
-   strand a fence on a failed task. *)
+   cutover, try a second task while one is active, abort around the cutover,
+   strand a fence on a failed task, and put two commands into ONE apply batch (two
+   creates for different / the same task id while no task is active, a create next to a
+   runtime-meta upsert or to a create for another channel). *)
 EXTENDS ChannelMigration, Json
 CONSTANT Depth
 VARIABLE hist
@@ -102,6 +104,21 @@ SimStep ==
   \/ Coin(2) /\ \E t \in Pick(OrNone({t \in Tasks : Terminal(tasks[t])})), o \in Pick(Owners) :
         t # None /\ Live # {} /\ Claim(t, o, TRUE, "ok")
   \/ Coin(4) /\ \E t \in Pick(OrNone(Present)) : t # None /\ Create(t, RandomElement({"none", "ok", "le"}))
+  \* ---- two commands in one apply batch ----
+  \* any pair of the modelled shapes
+  \/ Coin(3) /\ \E c1 \in Pick(BCmds), c2 \in Pick(BCmds) : BatchShape(c1, c2) /\ Batch2(c1, c2)
+  \* aimed: two racing planners: creates for two different task ids (or the same one twice)
+  \* in one batch while no task is active (both would pass the commit-time index check)
+  \/ Live = {} /\ \E t1 \in Pick(Tasks), t2 \in Pick(Tasks), g1 \in Pick({"none", "ok"}), g2 \in Pick({"none", "ok"}) :
+        (t1 # t2 \/ Coin(4)) /\ Batch2(BCreate(t1, g1), BCreate(t2, g2))
+  \/ Coin(3) /\ \E t1 \in Pick(Tasks), g1 \in Pick(BatchRGs), g2 \in Pick(BatchRGs) :
+        \E t2 \in Tasks \ {t1} : Batch2(BCreate(t1, g1), BCreate(t2, g2))
+  \* aimed: a create next to an upsert from outside (the guard is stale before / fresh after
+  \* the upsert, or the other way round) and next to a create for another channel
+  \/ Coin(3) /\ \E t \in Pick(Tasks), k \in Pick(Exts), rg \in Pick({"none", "ok", "le", "ce"}), first \in Pick(BOOLEAN) :
+        IF first THEN Batch2(BExt(k), BCreate(t, rg)) ELSE Batch2(BCreate(t, rg), BExt(k))
+  \/ Coin(3) /\ \E t \in Pick(Tasks), rg \in Pick({"none", "ok"}), first \in Pick(BOOLEAN) :
+        IF first THEN Batch2(BOther, BCreate(t, rg)) ELSE Batch2(BCreate(t, rg), BOther)
   \* ---- aimed: abort / clear / reset / renew by a fence holder, or against somebody else's fence ----
   \/ Coin(12) /\ \E t \in Pick(OrNone(Live)) : t # None /\ Abort(t, "ok", "ok")
   \/ \E t \in Pick(OrNone(Live)) : t # None /\ tasks[t].phase \in PostCutoverPhases /\ Abort(t, "ok", "ok")
